@@ -869,6 +869,18 @@ def run_fga(r, prop, cds, labels=None, floor=None):
                 for kind, T in bfs_implied(nn, st, dinfo0):
                     # encode as an implied threshold literal understood by check_site
                     st.extra.setdefault("bfs", []).append((kind, T))
+            if dinfo0 is not None and dinfo0.get("extract") is not None:
+                # pairs read off a rapidfuzz.process.extract result: the library keeps the 5 best matches unless told otherwise
+                lim, ex = dinfo0.get("limit"), dinfo0["extract"]
+                # (recognisably wrong: no limit at all, or a fixed number; whether a limit that is passed on is the caller's max_returns is the extract rule's business)
+                ok_lim = lim is not None and (is_const(strip(lim), None) or not is_const(strip(lim)))
+                r.rep.ob(prop + "-FGA", f"{st.q}#{label}@{MODE_NAME[mode]}", ok_lim, "every candidate within the bound is reported: extract is not cut at the library default of 5 matches",
+                         wh(r, st.q, st.node), expected="limit=None (or the max_returns of the caller)", found=show(lim, 30) if lim is not None else "absent (library default limit=5)",
+                         key=f"{label}/{MODE_NAME[mode]} extract limit", lint=True)
+                for bad in ("processor", "score_hint"):
+                    if get_arg(ex, None, bad) is not None:
+                        r.rep.ob(prop + "-FGA", f"{st.q}#{label}@{MODE_NAME[mode]}", False, f"extract compares the sequences as they are (no {bad})", wh(r, st.q, st.node), expected="absent",
+                                 found=show(get_arg(ex, None, bad), 40), key=f"{label}/{MODE_NAME[mode]} extract {bad}", lint=True)
             check_site_ext(r, prop, nn, st, mode, sa, sb, policy, eqlen, label)
             _check_site_collection(r, prop, nn, st, label, mode)
             if label == "LookupDB.lookup" and policy == "flag" and prop != "C03":
@@ -1046,7 +1058,8 @@ def _affine_range(nn, q, it, lo_expect, hi_role, exact=False):
                 return ks[0]
         return t
     from ..rules import rewrite as _rw
-    hi = _rw(strip_all(hi), unclip)
+    if not exact:          # a ball that also inserts residues is not bounded by the length of its centre: no clipping where the range is a depth
+        hi = _rw(strip_all(hi), unclip)
     _affine_range.clipped = list(clipped)
     rl, rh = ctx.rf(lo), ctx.rf(hi)
     roles = {nn.R._role_of(q, t) for t in walk(hi) if head(t) in ("param", "attr", "item")}
@@ -1166,6 +1179,13 @@ def check_comb_gen(r, rule):
 
     def undecided(msg):
         r.rep.require(False, f"{q}: {msg}: outside the enumeration idiom list; cannot decide [{rule}]")
+    # ---- lint: a variant removed from the returned collection is a variant two sequences can no longer meet in
+    ret_names = {x[2] for x in walk(("t", strip_all(s.ret))) if head(x) in ("after", "phi") and isinstance(x[2], str)}
+    for e_ in s.events_of("mutate"):
+        if e_["name"] in ret_names and e_["method"] in ("discard", "remove", "pop", "clear", "difference_update", "intersection_update", "symmetric_difference_update"):
+            r.rep.ob(rule, q, False, "every deletion variant of the enumeration is returned (the empty string included: it is the only variant two short disjoint sequences share)",
+                     wh(r, q, e_.node), expected="no removal from the variant set", found=f"{e_['name']}.{e_['method']}({', '.join(show(a_, 20) for a_ in e_['args'])})", key=f"variant removed {e_['method']}", lint=True)
+            return
     # ---- shape recognition: a set accumulator filled by one add() inside  for d in range(..): for c in combinations(..)
     from ..rules import small_rewrites as _small, lift_ite as _lift
     from ..ssa import leaves as _leaves
@@ -2050,9 +2070,37 @@ def check_validation(r, rule):
     pnames = [p[0] for p in s.params]
     prior = {strip_all(a["cond"]) for a in asserts}
 
+    def passive_atom(g):
+        return strip_all(g) in prior or head(strip(g)) in ("tryfall", "noexit") or (head(strip(g)) == "un" and head(strip(strip(g)[2])) == "caught")
+
     def passive(g, pol):
-        # guards that only say "the earlier validation steps did not raise" are not conditions on the input
-        return pol and (strip_all(g) in prior or head(strip(g)) in ("tryfall", "noexit") or (head(strip(g)) == "un" and head(strip(strip(g)[2])) == "caught"))
+        # guards that only say "the earlier validation steps did not raise" are not conditions on the input; neither is the join of the
+        # two arms of an earlier `if`: (c and <arm did not raise>) or (not c) is true for every input once the "did not raise" parts are
+        if pol and passive_atom(g):
+            return True
+        atoms = []
+
+        def ev(t, val):
+            t = strip(t)
+            if passive_atom(t):
+                return True
+            if head(t) == "and":
+                return all(ev(x, val) for x in t[1])
+            if head(t) == "or":
+                return any(ev(x, val) for x in t[1])
+            if head(t) == "un" and t[1] == "not":
+                return not ev(t[2], val)
+            if t == TRUE or t == FALSE:
+                return t == TRUE
+            k = strip_all(t)
+            if k not in atoms:
+                atoms.append(k)
+            return val.get(k, False)
+        ev(g, {})
+        if not atoms or len(atoms) > 8:
+            return False
+        import itertools as _it
+        return all(ev(g, dict(zip(atoms, bits))) == pol for bits in _it.product((False, True), repeat=len(atoms)))
     fmc = fold_module_consts(nn.P)
     norm = lambda c: rewrite(rewrite(strip_all(c), fmc), small_rewrites)
     uncond = [e for e in asserts if not e.ctx.loops and not e.ctx.tries and all(passive(g, pol) for g, pol in e.ctx.guards)]
@@ -2125,6 +2173,27 @@ def check_validation(r, rule):
             # (a test that the optional container was given at all is not such a condition)
             if all(passive(g, pol) or all(none_test(a_, p_) for a_, p_ in lits(g, pol)) for g, pol in gs):
                 return e
+        def skip_is_unicode_array(g, pol):
+            # the test is skipped exactly for numpy arrays of a unicode element type (they hold nothing but np.str_): not a gap
+            g = strip_all(g)
+            if head(g) == "un" and g[1] == "not":
+                g, pol = g[2], not pol
+            if pol or head(g) != "and":
+                return False
+            cj = list(g[1])
+            is_arr = any((head(c) == "cmp" and c[1] in ("is", "==") and c[2] == ("call", ("glob", "builtins.type"), (container,), ()) and c[3] == ("glob", "numpy.ndarray"))
+                         or (head(c) == "call" and c[1] == ("glob", "builtins.isinstance") and len(c[2]) == 2 and c[2][0] == container and c[2][1] == ("glob", "numpy.ndarray")) for c in cj)
+            is_u = any(head(c) == "cmp" and c[1] == "==" and c[2] == ("attr", ("attr", container, "dtype"), "kind") and c[3] == ("const", "str", "U") for c in cj)
+            return is_arr and is_u
+        for e, gs in cands:
+            if all(passive(g, pol) or all(none_test(a_, p_) for a_, p_ in lits(g, pol)) or skip_is_unicode_array(g, pol) for g, pol in gs):
+                r.rep.trust("a numpy array whose dtype.kind is 'U' holds only numpy.str_ elements")
+                return e
+        if cands:
+            # skipped on the strength of a *converted* copy's element type (np.asarray(['A', 5]).dtype.kind == 'U'): the conversion coerces, the test is gone
+            coerced = any(head(x) == "attr" and x[2] == "dtype" and head(strip(x[1])) == "call" and any(y == container for y in walk(("t", strip(x[1])[2])))
+                          for e, gs in cands for g, _ in gs for x in walk(("t", strip_all(g))))
+            return None if coerced else "conditional"          # present, but only for some inputs: whether the others need no check cannot be read here
         return None
     for idx, nm in ((0, "seqs"), (7, "seqs2")):
         if idx < len(pnames):
@@ -2132,6 +2201,9 @@ def check_validation(r, rule):
             cont_ = ("param", pnames[idx])
             if (e is None and any(any(x == cont_ for x in walk(strip_all(a_["cond"]))) and any(head(x) == "call" and head(strip(x[1])) == "glob" and strip(x[1])[1] in nn.P.functions for x in walk(strip_all(a_["cond"]))) for a_ in asserts)):
                 r.rep.require(False, f"{q}: an assertion mentions {nm} in a form outside the idiom list (per-element type test through a predicate); cannot decide [{rule}]")
+                continue
+            if e == "conditional":
+                r.rep.require(False, f"{q}: the per-element type test of {nm} runs only under a condition on the input; whether the remaining inputs need no test cannot be decided [{rule}]")
                 continue
             r.rep.ob(rule, q, e is not None, f"non-string elements of {nm} are rejected", wh(r, q, e.node if e else s.func.node), expected="assert type(seq) in {str, np.str_} for every element",
                      found="present" if e else "missing", key=f"validate elements {nm}")
